@@ -10,6 +10,7 @@ package main
 
 import (
 	"bufio"
+	"bytes"
 	"encoding/binary"
 	"encoding/json"
 	"fmt"
@@ -40,11 +41,28 @@ type scenario struct {
 	Rounds int    `json:"rounds"`
 	Vals   int    `json:"vals"`
 	Seed   int64  `json:"seed"`
+	Pre    []op   `json:"pre"`      // kind = gated: sequential operations first
+	A      op     `json:"a"`        // ... then this call is HELD between hashing its value and taking the filter's lock
+	B      []op   `json:"b"`        // ... while these run to completion
+	Post   []op   `json:"post"`     // ... and these follow its return
+	UnitMs int    `json:"unit_ms"`  // length of one model time unit (default 1000); 700 makes units and seconds incommensurable
+	Phase  int    `json:"phase_ms"` // the model's time 0 is this far behind a full second
 }
 
 var base = time.Unix(1700000000, 0)
 
-func at(now int) time.Time { return base.Add(time.Duration(now) * time.Second) }
+// model time -> wall time: units need not be whole seconds (a filter that rounds its timestamps must show)
+var unit, phase = time.Second, time.Duration(0)
+
+func setUnit(s *scenario) {
+	unit, phase = time.Second, 0
+	if s.UnitMs > 0 {
+		unit = time.Duration(s.UnitMs) * time.Millisecond
+	}
+	phase = time.Duration(s.Phase) * time.Millisecond
+}
+
+func at(now int) time.Time { return base.Add(phase + time.Duration(now)*unit) }
 
 func val(v int) []byte {
 	var b [32]byte
@@ -78,6 +96,8 @@ func main() {
 			runSeq(w, &s)
 		case "conc":
 			runConc(w, &s)
+		case "gated":
+			runGated(w, &s)
 		case "stress":
 			runStress(w, &s)
 		default:
@@ -90,7 +110,8 @@ func main() {
 }
 
 func runSeq(w *vt.Writer, s *scenario) {
-	f, err := replayfilter.New(time.Duration(s.TTL) * time.Second)
+	setUnit(s)
+	f, err := replayfilter.New(time.Duration(s.TTL) * unit)
 	if err != nil {
 		panic(err)
 	}
@@ -122,7 +143,8 @@ func runSeq(w *vt.Writer, s *scenario) {
 // runConc: Procs goroutines submit overlapping values; all calls of a round carry the same
 // timestamp (the clock is an argument of TestAndSet, concurrency is about the critical section).
 func runConc(w *vt.Writer, s *scenario) {
-	f, err := replayfilter.New(time.Duration(s.TTL) * time.Second)
+	setUnit(s)
+	f, err := replayfilter.New(time.Duration(s.TTL) * unit)
 	if err != nil {
 		panic(err)
 	}
@@ -162,10 +184,92 @@ func runConc(w *vt.Writer, s *scenario) {
 	}
 }
 
+// runGated: the interleaving the prelock hook exists for, with DIFFERENT timestamps: caller A has computed what it needs
+// from its value and is about to take the lock when other callers go through the filter completely - among them ones whose
+// clock reading lies before A's (the filter discards everything) or far behind it (everything has expired).
+func runGated(w *vt.Writer, s *scenario) {
+	setUnit(s)
+	f, err := replayfilter.New(time.Duration(s.TTL) * unit)
+	if err != nil {
+		panic(err)
+	}
+	seq := func(o op) {
+		res := f.TestAndSet(at(o.Now), val(o.V))
+		n, m, c := f.VerifState()
+		w.Emit(vt.Ev{"event": "TAS", "v": o.V, "now": o.Now, "res": res, "size": n, "cons": c && n == m})
+	}
+	for _, o := range s.Pre {
+		seq(o)
+	}
+	var gmu sync.Mutex
+	first := true
+	parked, release := make(chan struct{}), make(chan struct{})
+	av := val(s.A.V)
+	replayfilter.VerifGate = func(point string, buf []byte) {
+		if point != "replayfilter.prelock" || !bytes.Equal(buf, av) {
+			return
+		}
+		gmu.Lock()
+		mine := first
+		first = false
+		gmu.Unlock()
+		if mine {
+			close(parked)
+			<-release
+		}
+	}
+	defer func() { replayfilter.VerifGate = nil }()
+	adone := make(chan bool, 1)
+	w.Emit(vt.Ev{"event": "Call", "p": 1, "v": s.A.V, "now": s.A.Now})
+	go func() { adone <- f.TestAndSet(at(s.A.Now), val(s.A.V)) }()
+	select {
+	case <-parked:
+	case res := <-adone:
+		// the code under test never came by the hook: nothing was held, the call is simply over
+		w.Emit(vt.Ev{"event": "Ret", "p": 1, "res": res})
+		adone = nil
+	case <-time.After(10 * time.Second):
+		w.Emit(vt.Ev{"event": "DriverDead", "why": "caller A neither reached the hook nor returned"})
+		return
+	}
+	for _, o := range s.B {
+		if o.V == s.A.V {
+			gmu.Lock()
+			first = false
+			gmu.Unlock()
+		}
+		w.Emit(vt.Ev{"event": "Call", "p": 2, "v": o.V, "now": o.Now})
+		bd := make(chan bool, 1)
+		go func() { bd <- f.TestAndSet(at(o.Now), val(o.V)) }()
+		select {
+		case res := <-bd:
+			w.Emit(vt.Ev{"event": "Ret", "p": 2, "res": res})
+		case <-time.After(10 * time.Second):
+			w.Emit(vt.Ev{"event": "DriverDead", "why": "a caller blocked while another was held in front of the lock"})
+			close(release)
+			return
+		}
+	}
+	if adone != nil {
+		close(release)
+		select {
+		case res := <-adone:
+			w.Emit(vt.Ev{"event": "Ret", "p": 1, "res": res})
+		case <-time.After(10 * time.Second):
+			w.Emit(vt.Ev{"event": "DriverDead", "why": "caller A did not return"})
+			return
+		}
+	}
+	for _, o := range s.Post {
+		seq(o)
+	}
+}
+
 // runStress: in every round all Procs goroutines submit THE SAME value at the same instant,
 // released together by a spin barrier; logged per round: how many were told "new".
 func runStress(w *vt.Writer, s *scenario) {
-	f, err := replayfilter.New(time.Duration(s.TTL) * time.Second)
+	setUnit(s)
+	f, err := replayfilter.New(time.Duration(s.TTL) * unit)
 	if err != nil {
 		panic(err)
 	}
